@@ -1,4 +1,4 @@
 From Coq Require Import Extraction ExtrOcamlBasic.
 From PV Require Import Base.Bytes Base.Outcome Base.DrvBase Model.Ecdsa Model.Rfc6979 Spec.Rfc6979Spec Model.EcdsaInst.
-Extraction "../ml/c01.ml" drv_base inverse_mod deterministic_generate_k rfc6979_k
+Extraction "../ml/c01.ml" drv_base inverse_mod default_gen_k rfc6979_k
   i_verify i_sign_with_recid i_sign_with_k i_recover i_pubkey.
